@@ -136,6 +136,7 @@ Definition old_rw : instance := {|
     ("PutMany", [[Straight [Acq 0 MW; Rd 0; Rd 6];
                   Iter [[Rd 1; Rd 3; Rd 2; Rd 4; Rd 5; Rd 4; Wr 5; Rd 1; Wr 2]];
                   Straight [Rel 0 MW]]])];
+  i_panic := [];
   i_other := []
 |}.
 
